@@ -25,7 +25,9 @@ import (
 	"google.golang.org/protobuf/encoding/protojson"
 	protov2 "google.golang.org/protobuf/proto"
 
+	"google.golang.org/protobuf/reflect/protoreflect"
 	"verif/mc/lib/ev"
+
 	"verif/mc/lib/gcore"
 )
 
@@ -353,6 +355,35 @@ func (c *checker) marshalSide(s *subject, vc vcase) (baseline []byte, baselineOK
 			other := c.combos[(ci+7)%len(c.combos)]
 			_, _, _ = guardB(func() ([]byte, error) { return csproto.JSONMarshaler(src, other.opts()...).MarshalJSON() })
 			_, _, _ = guardB(func() ([]byte, error) { return csproto.JSONMarshaler(src).MarshalJSON() })
+			// ... nor may a second call on the SAME adapter value (encode, keep the result, encode again)
+			// (encode, keep the result, MODIFY the message, encode again: the adapter holds the message, so the second
+			// output differs from the first - here the message is emptied - and must not be written over the first)
+			src2 := vc.build()
+			jm := csproto.JSONMarshaler(src2, cb.opts()...)
+			first, _, _ := guardB(func() ([]byte, error) { return jm.MarshalJSON() })
+			fsnap := append([]byte{}, first...)
+			second, err2, pan2 := guardB(func() ([]byte, error) { return jm.MarshalJSON() })
+			func() {
+				defer func() { _ = recover() }() // gogo messages with custom Go types have no protoreflect view: left unmodified
+				mr := gcore.Reflect(src2)
+				var set []protoreflect.FieldDescriptor
+				mr.Range(func(fd protoreflect.FieldDescriptor, _ protoreflect.Value) bool { set = append(set, fd); return true })
+				for _, fd := range set {
+					if fd.Cardinality() != protoreflect.Required {
+						mr.Clear(fd)
+					}
+				}
+			}()
+			_, _, _ = guardB(func() ([]byte, error) { return jm.MarshalJSON() })
+			if pan2 != "" || err2 != nil || !bytes.Equal(first, fsnap) || !bytes.Equal(second, fsnap) || !bytes.Equal(fsnap, snap) {
+				d := det(snap)
+				d["same_adapter_first_result_now"] = trunc(first)
+				d["same_adapter_first_result_was"] = trunc(fsnap)
+				d["same_adapter_second_result"] = trunc(second)
+				d["error"] = fmt.Sprint(err2, " ", pan2)
+				c.fail("marshal/second-call-on-the-same-adapter-changes-or-differs-from-the-first-result", s, vc, "", d)
+				return nil, false
+			}
 			if !bytes.Equal(out, snap) {
 				d := det(snap)
 				d["after_later_call"] = trunc(out)
